@@ -1,3 +1,4 @@
+import ZorgVerif.Lemmas.Identity
 import ZorgVerif.Lemmas.NoteText
 /-!
 # C11 — Modification dates are stamped on exactly the notes that were edited
@@ -62,6 +63,13 @@ theorem C11_index_body_agrees (date : Str) (o n : NoteState) (body : List Str) (
     rw [splitOn_joinSp (w :: r) (by simp) hsp]
     simp only [dropLeading, List.headD_cons, List.drop_succ_cons, List.drop_zero, ← hd6]
     cases isSixDigits w <;> simp
+
+/-- **The written stamp is read back**: a line whose first words after the prefix are a six-digit date and the ZID (what
+`C11_stamp_position` writes) compiles to a note with that modify date, that ZID and the ZID's creation date, whatever follows -/
+theorem C11_written_stamp_is_read (s z : Str) (md cd : Date) (hs : Zo.isShortDate s = true) (hsd : Date.parseShort s = some md)
+    (hz : Zo.isZid z = true) (hd : Date.parseShort (z.take 6) = some cd) (rest : List Zo.Ev) :
+    Zo.identity (.word :: .id s :: .word :: .id z :: rest) = .ok (some md, some z, some cd) :=
+  Zo.identity_stamp_then_zid s z md cd hs hsd hz hd rest
 
 /-- re-stamping on a later day replaces the old stamp (no stamps pile up) -/
 theorem C11_restamp (d1 d2 : Str) (k j : Nat) (sym : Str) (prio body : List Str) (h : Shape sym prio j body)
